@@ -24,6 +24,18 @@ double nondet_f64(void);
 uint64_t vf_in[VF_MAX_IN];
 unsigned vf_nin;
 int vf_nowrap; /* see shim/immintrin.h */
+/* CBMC's fma() model calls feraiseexcept() (which asserts) for inf*0 / inf-inf operands; floating-point
+ * exception flags are not part of any property, and with this empty body the operand classification is
+ * sliced away instead of being bit-blasted in every memory-safety run */
+int feraiseexcept(int excepts) {
+  (void)excepts;
+  return 0;
+}
+int vf_cpu_avx;  /* answer of the CPU-feature hook (cpu_hook.h) */
+int vf_cpu_supports(const char* feature) {
+  (void)feature;
+  return vf_cpu_avx;
+}
 #else
 extern uint64_t vf_in[VF_MAX_IN];
 extern unsigned vf_nin;
